@@ -131,14 +131,23 @@ def build_tu(cases, idxs, linemap=None):
 GCC_FLAGS = ["-O0", "-w", "-std=gnu11", "-fsanitize=undefined,float-cast-overflow,float-divide-by-zero", "-fsanitize-undefined-trap-on-error", "-ffp-contract=off", "-fwrapv-pointer"]
 
 
-def _compile_run(cases, idxs, d, tag, extra_flags=(), linemap=None):
+def _compile_run(cases, idxs, d, tag, extra_flags=(), linemap=None, warn_exclude=None, excluded=None):
     src = os.path.join(d, "tu_%s.c" % tag)
     exe = os.path.join(d, "tu_%s.exe" % tag)
     with open(src, "w") as f:
         f.write(build_tu(cases, idxs, linemap))
-    r = subprocess.run(["gcc"] + GCC_FLAGS + list(extra_flags) + ["-fmax-errors=0", "-o", exe, src], capture_output=True, text=True)
+    flags = [f for f in GCC_FLAGS if not (f == "-w" and warn_exclude is not None)]
+    if "-fno-sanitize=all" in extra_flags:
+        flags = [f for f in flags if not f.startswith("-fsanitize")]
+    r = subprocess.run(["gcc"] + flags + list(extra_flags) + ["-fmax-errors=0", "-o", exe, src], capture_output=True, text=True)
     if r.returncode != 0:
         return None, r.stderr
+    if warn_exclude is not None and linemap is not None:
+        for m in re.finditer(r"\.c:(\d+):\d+: warning: ([^\n]*)", r.stderr):
+            if re.search(warn_exclude, m.group(2)):
+                k = linemap.get(int(m.group(1)))
+                if k is not None:
+                    excluded[k] = m.group(2)[:100]
     env = dict(os.environ, UBSAN_OPTIONS="print_stacktrace=0:halt_on_error=0")
     r = subprocess.run([exe], stdout=subprocess.PIPE, stderr=subprocess.STDOUT, text=True, env=env, errors="replace")
     try:
@@ -191,8 +200,11 @@ def parse_output(text, cases):
     return res
 
 
-def run_cases(cases, d, batch=150, tag="b", extra_flags=()):
-    """-> list aligned with cases: None (rejected by gcc) | {vi: outcome}"""
+def run_cases(cases, d, batch=150, tag="b", extra_flags=(), warn_exclude=None):
+    """-> list aligned with cases: None (rejected by gcc) | {vi: outcome}
+    warn_exclude: regex on gcc warning texts (pass the -W flags in extra_flags, after "-Wno-w" is not needed: put "-W..." flags
+    there; -w is overridden by later -W options); cases with a matching warning get every vector marked ("ub", warning)."""
+    excluded = {}
     out = [None] * len(cases)
     idx = list(range(len(cases)))
     n = 0
@@ -205,7 +217,7 @@ def run_cases(cases, d, batch=150, tag="b", extra_flags=()):
             part = todo.pop()
             linemap = {}
             rounds += 1
-            text, err = _compile_run(cases, part, d, "%s%d_%d" % (tag, n, rounds), extra_flags, linemap)
+            text, err = _compile_run(cases, part, d, "%s%d_%d" % (tag, n, rounds), extra_flags, linemap, warn_exclude, excluded)
             if text is None:
                 # attribute compile errors to cases by line number and retry without them
                 bad = set()
@@ -225,4 +237,6 @@ def run_cases(cases, d, batch=150, tag="b", extra_flags=()):
             res = parse_output(text, cases)
             for k in part:
                 out[k] = res.get(k, {})
+                if k in excluded:
+                    out[k] = {vi: ("ub", "gcc warning: " + excluded[k]) for vi in range(len(cases[k]["vectors"]))}
     return out
